@@ -74,6 +74,7 @@ func roundingShapes(r *Run, rule string) {
 	}
 	if f := r.fn("types.chopPrecisionAndRound"); f != nil {
 		cmp := `\(\*math/big\.Int\)\.Cmp\(` + q(rem) + `, global:types\.fivePrecision\)`
+		cmpSw := `\(\*math/big\.Int\)\.Cmp\(global:types\.fivePrecision, ` + q(rem) + `\)` // atoms spell "above half" as Cmp(half, rem) < 0
 		for i, ret := range Returns(f) {
 			t := P.TermAt(ret.Results[0], ret).String()
 			gs := P.Guards(ret, 0)
@@ -88,16 +89,16 @@ func roundingShapes(r *Run, rule string) {
 				lt, _ := HasAtom(gs, `^(`+eq(cmp, "-1")+`|\(`+cmp+` < 0\))$`)
 				even, _ := HasAtom(gs, `^`+eq(`\(\*math/big\.Int\)\.Bit\(`+q(quo)+`, 0\)`, "0")+`$`)
 				nb, _ := HasAtom(gs, `^!(`+eq(cmp, "-1")+`|\(`+cmp+` < 0\))$`)
-				na, _ := HasAtom(gs, `^!(`+eq(cmp, "1")+`|\(0 < `+cmp+`\))$`)
+				na, _ := HasAtom(gs, `^!\(`+cmpSw+` < 0\)$`)
 				tie0, _ := HasAtom(gs, `^`+eq(cmp, "0")+`$`)
 				tieD := (nb && na) || tie0
 				r.Check(z || lt || (even && tieD), rule, key+"/down-iff-below-half-or-even-tie", P.InstrPos(ret), "quotient kept for remainder 0, < half, or an even quotient at the tie", "the quotient is kept under "+strings.Join(atomStrings(gs), " ; "))
 			case t == inc:
-				gt, _ := HasAtom(gs, `^(`+eq(cmp, "1")+`|\(0 < `+cmp+`\))$`)
+				gt, _ := HasAtom(gs, `^\(`+cmpSw+` < 0\)$`)
 				odd, _ := HasAtom(gs, `^!`+eq(`\(\*math/big\.Int\)\.Bit\(`+q(quo)+`, 0\)`, "0")+`$`)
 				// Cmp yields -1, 0 or 1: the tie is "neither below nor above", however the comparison is spelled
 				tie1, _ := HasAtom(gs, `^!(`+eq(cmp, "-1")+`|\(`+cmp+` < 0\))$`)
-				tie2, _ := HasAtom(gs, `^!(`+eq(cmp, "1")+`|\(0 < `+cmp+`\))$`)
+				tie2, _ := HasAtom(gs, `^!\(`+cmpSw+` < 0\)$`)
 				if tie, _ := HasAtom(gs, `^`+eq(cmp, "0")+`$`); tie {
 					tie1, tie2 = true, true
 				}
